@@ -474,6 +474,17 @@ theorem native_bits_multiframe_roundtrip (c : CodecImpl) (conv : List Int → Li
       = .ok (frames[i].map (fun b => if b then 1 else 0)) :=
   native_bits_multiframe c conv p rows cols samples frames hn hlen hts hba i hi
 
+/-- ... hence a reader of the image classes, which passes the frame's own index (T13g: `index=frame_index`), returns frame `i` of a
+bit-packed multi-frame image (a segmentation, a single-bit secondary capture) from the bytes `get_raw_frame` cuts for it (C05). -/
+theorem reader_reads_packed_bit_frames (c : CodecImpl) (conv : List Int → List Int) (m : PixelModule) (frames : List (List Bool))
+    (hn : 0 < m.rows * m.cols * m.samples) (hlen : ∀ f ∈ frames, f.length = m.rows * m.cols * m.samples)
+    (hts : m.ts ∈ nativeSyntaxes) (hba : m.bitsAllocated = 1) (i : Nat) (hi : i < frames.length) :
+    readFrame c conv m
+        (pySlice (pack frames.flatten) ((i * (m.rows * m.cols * m.samples)) / 8) (((i + 1) * (m.rows * m.cols * m.samples) + 7) / 8))
+        (i : Int)
+      = .ok (frames[i].map (fun b => if b then 1 else 0)) :=
+  native_bits_multiframe c conv m.params m.rows m.cols m.samples frames hn hlen hts hba i hi
+
 /- Full statement: as below without `hnc` (YBR_FULL) and with `codecRegion` replaced by "any lossless syntax". -/
 /-- **A reader returns the frame a writer encoded**: an image whose pixel module carries the parameters its frames were
 encoded with (`PixelModule.written`; the writers' call sites are in `tie_call_sites`), read through any of the four readers
